@@ -25,7 +25,11 @@ from .models import (
     WSMsgType,
 )
 
-ALLOWED_CLOSE_CODES: Final[set[int]] = {int(i) for i in WSCloseCode}
+# 1006 (abnormal closure) is in WSCloseCode for *reporting* a connection that
+# went away; like 1005 and 1015 it must never appear in a close frame.
+ALLOWED_CLOSE_CODES: Final[set[int]] = {int(i) for i in WSCloseCode} - {
+    int(WSCloseCode.ABNORMAL_CLOSURE)
+}
 
 # States for the reader, used to parse the WebSocket frame
 # integer values are used so they can be cythonized
